@@ -4,7 +4,7 @@
   (`Spec.activePower` = Σ power of the sectors whose status is `active`: live, proven, not faulty)
   and the power-actor model `BA.Power` (claims, totals, consensus-minimum rule).
 -/
-import BA.Lemmas.Sector.Abs
+import BA.Lemmas.Sector.FullStep
 import BA.Lemmas.Power
 
 namespace BA.Sector
@@ -49,32 +49,31 @@ theorem delta_telescopes (env : Env) (ops : List Op) (p : Partition) :
 /-- **delta_telescopes_recomputed_partial.** From the empty partition, for the operations of
     `memo_eq_recompute_partial` (add_sectors, record_faults, declare_faults_recovered,
     recover_faults, activate_unproven, record_missed_post, record_skipped_faults,
-    pop_early_terminations), the sum of all forwarded deltas equals the power RECOMPUTED from the
-    individual sectors: Σ (raw, qa) over the sectors that are live, proven (not in `unproven`),
-    and neither faulty nor recovering.  PARTIAL: for terminate_sectors / pop_expired_sectors /
-    reschedule_expirations / replace_sectors only the memo-level statement `delta_telescopes` is
-    proved. -/
+    pop_expired_sectors, pop_early_terminations), the sum of all forwarded deltas equals the power
+    RECOMPUTED from the individual sectors: Σ (raw, qa) over the sectors that are live (neither
+    terminated nor expired), proven (not in `unproven`), and neither faulty nor recovering.
+    PARTIAL: for terminate_sectors / reschedule_expirations / replace_sectors only the memo-level
+    statement `delta_telescopes` is proved. -/
 theorem delta_telescopes_recomputed_partial (env : Env) (ops : List Op) (hw : TableWF env.tbl)
-    (hops : ∀ op ∈ ops, OpWF op ∧ OpWF2 env.tbl op ∧ TierA op) :
+    (hops : ∀ op ∈ ops, OpWF op ∧ OpWF2 env.tbl op ∧ TierB op) :
     sumDeltas env Partition.new ops = Spec.activePower env.tbl (run env Partition.new ops).abs := by
   have h1 := delta_telescopes env ops Partition.new
-  have inv : ∀ (ops : List Op) (p : Partition), SetInv p → MemoInv env.tbl p →
-      (∀ op ∈ ops, OpWF op ∧ OpWF2 env.tbl op ∧ TierA op) →
-      SetInv (run env p ops) ∧ MemoInv env.tbl (run env p ops) := by
+  have inv : ∀ (ops : List Op) (p : Partition), FullInv env.tbl p →
+      (∀ op ∈ ops, OpWF op ∧ OpWF2 env.tbl op ∧ TierB op) → FullInv env.tbl (run env p ops) := by
     intro ops
     induction ops with
-    | nil => intro p hs hm _; exact ⟨hs, hm⟩
+    | nil => intro p h _; exact h
     | cons op rest ih =>
-      intro p hs hm hops
+      intro p h hops
       obtain ⟨a, b, c⟩ := hops op (by simp)
       simp only [run]
-      apply ih _ (setInv_step hs a) _ (fun o ho => hops o (by simp [ho]))
+      apply ih _ _ (fun o ho => hops o (by simp [ho]))
       unfold step
-      cases h : stepE env p op with
-      | error e => exact hm
-      | ok r => obtain ⟨p', ret⟩ := r; exact memoInv_stepE hw hs hm a b c h
-  obtain ⟨hs, hm⟩ := inv ops Partition.new setInv_new (memoInv_new _) hops
-  have h2 := (memo_eq_spec hs hm).2.2.2.2
+      cases hs : stepE env p op with
+      | error e => exact h
+      | ok r => obtain ⟨p', ret⟩ := r; exact fullInv_stepE hw h a b c hs
+  have hf := inv ops Partition.new (fullInv_new _) hops
+  have h2 := (memo_eq_spec hf.sets hf.memo).2.2.2.2
   rw [← h2, h1]
   ext <;> simp [Partition.activePower, Partition.new]
 
